@@ -562,6 +562,56 @@ func genND(c *Ctx) {
 		emit(p)
 	}
 
+	// (d) the whole-array helpers (Scale = ApplyFunc1, AddTo) on EVERY combination of destination / source back-end and
+	// destination / source contiguity ("all source/destination contiguity combinations of the two-array operations"): each helper has
+	// one path per combination, and a path that computes into an unrolled copy must store it back
+	for _, elt := range []string{"float64", "int32", "float32", "uint64"} {
+		for _, tag := range []string{"g", "c", "m"} {
+			for _, destFirst := range []bool{true, false} {
+				for mask := 0; mask < 4; mask++ {
+					dc, sc := mask&1 != 0, mask&2 != 0
+					for _, op := range []string{"scale", "addto"} {
+						p := newProg(c.R, tag, elt)
+						p.wrap = 9000
+						shapeOf := func(contig bool) []int {
+							if contig {
+								return []int{4, 6}
+							}
+							return []int{4, 12}
+						}
+						stepOf := func(contig bool) string {
+							if contig {
+								return "0"
+							}
+							return "1 " + Is([]int{1, 2})
+						}
+						first, second := dc, sc
+						if !destFirst {
+							first, second = sc, dc
+						}
+						p.addRoot(tag != "g", shapeOf(first))
+						p.addRoot(tag == "c", shapeOf(second))
+						p.add(fmt.Sprintf("slice 0 %s %s %s", Is([]int{1, 0}), Is([]int{2, 6}), stepOf(first)))
+						p.add(fmt.Sprintf("slice 1 %s %s %s", Is([]int{1, 0}), Is([]int{2, 6}), stepOf(second)))
+						dv, sv := 2, 3
+						if !destFirst {
+							dv, sv = 3, 2
+						}
+						if op == "scale" {
+							p.add(fmt.Sprintf("scale %d %d 3", dv, sv))
+						} else {
+							p.add(fmt.Sprintf("addto %d %d", dv, sv))
+						}
+						p.add(fmt.Sprintf("unroll %d", dv))
+						p.add(fmt.Sprintf("contig %d", dv))
+						emit(p)
+						c.Stats.Count("array_op_matrix_programs")
+					}
+				}
+			}
+		}
+	}
+
 	// (c) malformed stream, Go back-end only
 	M := N / 4
 	for i := 0; i < M; i++ {
